@@ -10,7 +10,15 @@ fi
 /venv/bin/python - <<'PY'
 import json, sys
 from harness import common as cm
-cm.regenerate_consts()
+cm.regenerate_consts(needed=[])          # base constants only (fail-closed)
+import importlib
+for f in sorted((cm.VERIF / "harness" / "extractors").glob("*.py")):
+    if f.stem.startswith("_"):
+        continue
+    try:                                   # every extractor on its own: one that fails leaves
+        cm.regenerate_consts(needed=[f.stem])   # its Gen file as it is and only breaks the checks needing it
+    except Exception as e:
+        print(f"setup: extractor {f.stem} failed: {e}")
 cm.build_ext()
 man = json.load(open(cm.VERIF / "MANIFEST.json"))
 targets = [f"Props/{c['property_id']}.vo" for c in man["checks"]]
